@@ -40,10 +40,10 @@ def scheduler_stage(ctx):
     ctx.guards["GRewindNew"] = (f"load-bearing on chain2: {w['invariant']} at depth {w['depth']}" if w["found"] else "no counterexample on chain2")
     if not w["found"]:
         raise ToolError("vacuity: without the rewind after a write-set expansion nothing is violated on chain2")
-    se.replay_witness(ctx, w, "C15", also=("C01", "C02"), extra_runs=4 if quick else 30)
+    se.replay_witness(ctx, w, "C15", also=("C01", "C02"), extra_runs=ctx.n(4, 30))
     names = ["chain2", "rmw3", "grow_shrink3", "dd3", "invalid_then_valid3"]
     for workers in (2, 3):
-        r, out, args = se.controlled(ctx, names, 30 if quick else 1500, workers=workers, tag=f"sched_w{workers}")
+        r, out, args = se.controlled(ctx, names, ctx.n(30, 1500), workers=workers, tag=f"sched_w{workers}")
         se.report(ctx, r, args, "C15", also=("C01", "C02"))
         se.validate(ctx, r, out, f"sched_trace_w{workers}", workers=workers)
     ctx.assumptions += ["scheduler level: every recorded run is validated against Grevm.tla with FinalityFresh evaluated after every step: the timestamp taken before the "
